@@ -331,7 +331,7 @@ func (w *xnpWorld) disconnect(a *xnpNode, b string, do func()) {
 			break
 		}
 	}
-	if !d.renewed {
+	if !d.renewed && (a.name == "A" || b == "A") { // as TDisconnectRet of the trace specification
 		if w.up[a.name] != nil {
 			w.up[a.name][b] = false
 		}
